@@ -996,7 +996,8 @@ def r_val_sib(E):
                                   "call both validators")
     rel, sa = pm.find_function(MO, "ModelingObject.__setattr__")
     rel2, pc = pm.find_function(MU, "ModelingUpdate.parse_changes_list")
-    rel2, init = pm.find_function(MU, "ModelingUpdate.__init__")
+    from .framework import TxnAnalysis as _TA
+    init = _TA(pm).methods["__init__"]
     checks = [("construction", sa, rel, "check_input_value_type_positivity_and_unit"),
               ("construction", sa, rel, "check_belonging_to_authorized_values"),
               ("update", pc, rel2, "check_input_value_type_positivity_and_unit"),
